@@ -326,6 +326,10 @@ pub fn closed_world_opt(sorenson: bool, trs: &[u8], contents: usize, early_end: 
             }
         }
         ops.push(GOp::pic(&format!("P-first-macroblock-only(tr={tr})"), Pic { hdr: hdr(1, tr), mbs: vec![flat_mb(contents - 1)] }));
+        // intra pictures that end early, too: with a reference they are completed from it, without one
+        // they are refused - either way the books must follow what the call returned
+        ops.push(GOp::pic(&format!("I-header-only(tr={tr})"), Pic { hdr: hdr(0, tr), mbs: vec![] }));
+        ops.push(GOp::pic(&format!("I-first-macroblock-only(tr={tr})"), Pic { hdr: hdr(0, tr), mbs: vec![flat_mb(contents - 1)] }));
     }
     ops.extend(bad_inputs(sorenson));
     ops.push(GOp::Cleanup);
